@@ -113,6 +113,22 @@ type Object struct {
 	Pan  string
 }
 
+// ShallowCopy is `c := *e`: a by-value copy of the evaluator (of the filter,
+// which holds its evaluator by pointer), as a caller makes one when it embeds
+// the value in a struct of its own.
+func (o *Object) ShallowCopy() *Object {
+	c := &Object{Spec: o.Spec, Err: o.Err, Pan: o.Pan}
+	if o.Ev != nil {
+		e := *o.Ev
+		c.Ev = &e
+	}
+	if o.Fl != nil {
+		f := *o.Fl
+		c.Fl = &f
+	}
+	return c
+}
+
 // NewObject creates the object described by spec; creation errors and panics
 // are outcomes, not failures of the harness.
 func NewObject(spec ObjSpec) (o *Object) {
